@@ -1322,41 +1322,14 @@ fn parse_expression(
 
                 let rhs_expr = parse_expression(tokens, id_gen, diagnostics);
 
-                match rhs_expr.expr_ {
-                    Expression_::BinaryOperator(next_lhs, next_op, next_rhs) => {
-                        // Our recursive logic gives us right-associativity,
-                        // i.e. `x OP (y OP z)`, convert to `(x OP y) OP z`.
-
-                        let expr_pos = expr.position.clone();
-
-                        let new_inner = Expression::new(
-                            Position::merge(&expr_pos, &next_lhs.position),
-                            Expression_::BinaryOperator(
-                                Rc::new(expr),
-                                token_as_binary_op(&token).unwrap(),
-                                next_lhs,
-                            ),
-                            id_gen.next(),
-                        );
-
-                        expr = Expression::new(
-                            Position::merge(&expr_pos, &next_rhs.position),
-                            Expression_::BinaryOperator(Rc::new(new_inner), next_op, next_rhs),
-                            id_gen.next(),
-                        );
-                    }
-                    _ => {
-                        expr = Expression::new(
-                            Position::merge(&expr.position, &rhs_expr.position),
-                            Expression_::BinaryOperator(
-                                Rc::new(expr),
-                                token_as_binary_op(&token).unwrap(),
-                                Rc::new(rhs_expr),
-                            ),
-                            id_gen.next(),
-                        );
-                    }
-                }
+                // Our recursive logic gives us right-associativity,
+                // i.e. `x OP (y OP z)`, convert to `(x OP y) OP z`.
+                expr = left_associate(
+                    expr,
+                    token_as_binary_op(&token).unwrap(),
+                    rhs_expr,
+                    id_gen,
+                );
             }
             _ => break,
         }
@@ -1367,6 +1340,36 @@ fn parse_expression(
     }
 
     expr
+}
+
+/// Build `lhs OP rhs` as a left-associative tree.
+///
+/// `rhs` has been parsed recursively, so when it is itself a chain of
+/// binary operators it is already left-nested, e.g. `(y OP z) OP w`.
+/// Attach `lhs OP` at its leftmost operand, producing
+/// `((lhs OP y) OP z) OP w`, however long the chain is.
+fn left_associate(
+    lhs: Expression,
+    op: BinaryOperatorSymbol,
+    rhs: Expression,
+    id_gen: &mut IdGenerator,
+) -> Expression {
+    match rhs.expr_ {
+        Expression_::BinaryOperator(next_lhs, next_op, next_rhs) => {
+            let new_inner = left_associate(lhs, op, (*next_lhs).clone(), id_gen);
+
+            Expression::new(
+                Position::merge(&new_inner.position, &next_rhs.position),
+                Expression_::BinaryOperator(Rc::new(new_inner), next_op, next_rhs),
+                id_gen.next(),
+            )
+        }
+        _ => Expression::new(
+            Position::merge(&lhs.position, &rhs.position),
+            Expression_::BinaryOperator(Rc::new(lhs), op, Rc::new(rhs)),
+            id_gen.next(),
+        ),
+    }
 }
 
 /// Parse an expression up to (but excluding) trailing syntax.
